@@ -90,7 +90,7 @@ theorem mapChildren_ready {k : Forest.MapKind} {key : Nat} {ks : List HTree} {h 
       intro c hc; simp [(hr c hc).1]
     have hmc : Forest.mapChildren .namespaces (.node h v ks) = ks := by
       simp only [Forest.mapChildren, HTree.kids]
-      exact takeWhile_all _ _ hall
+      exact ffx_takeWhile_all _ _ hall
     rw [hmc]
     refine ⟨fun c hc => (hr c hc).2, ?_, fun l hl => hl⟩
     intro hl
@@ -104,14 +104,14 @@ theorem mapChildren_ready {k : Forest.MapKind} {key : Nat} {ks : List HTree} {h 
     have hmc : Forest.mapChildren .attributes (.node h v (nsK ++ atK)) = atK := by
       simp only [Forest.mapChildren, HTree.kids]
       rw [List.dropWhile_append_of_pos hnsall, dropWhile_ns_of_attr atK (fun c hc => (hat c hc).1)]
-      exact takeWhile_all _ _ hatall
+      exact ffx_takeWhile_all _ _ hatall
     rw [hmc]
     refine ⟨fun c hc => (hat c hc).2, ?_, ?_⟩
     · intro hl
       have : atK = [] := List.getLast?_eq_none_iff.1 hl
       subst this
       refine Or.inr ⟨rfl, ?_⟩
-      simpa using takeWhile_all _ _ hnsall
+      simpa using ffx_takeWhile_all _ _ hnsall
     · intro l hl
       simp [List.getLast?_append, hl]
 
